@@ -154,11 +154,9 @@ def step (_ : Unit) (op impl : String) : Unit × DrvOut :=
     let mk := parseStage (get kv "mk")
     let envKeys : List Bytes := listOf (get kv "env") fun it => hexS ((it.splitOn ":").headD "")
     let panicSpec := if impl == "panic" then "FAIL Load panics" else "ok"
-    let pu : List Bytes := listOf (get kv "pu") hexS
-    -- the decidable class of the one open environment finding
-    let envClass : Option String :=
-      if envNilReceiver pu envKeys then some "KNOWN env-nil-receiver Load panics when a variable extends the name of an unset optional parameter that has an UnmarshalEnv method (nil receiver)"
-      else none
+    -- (the `pu=` column and `envNilReceiver` record the class of the finding fixed in /repo 7bda13e; a panic of the
+    -- front half is a failure whatever its class)
+    let envClass : Option String := none
     match loadDecrypt rk mk with
     | .panic => ((), { model := "panic", spec := "FAIL Load panics while decrypting" })
     | .err => ((), { model := "err", spec := panicSpec })
